@@ -62,6 +62,8 @@ Next == \E o \in Ops :
 Spec == Init /\ [][Next]_vars
 
 View == <<st, Len(hist)>>
+\* the design check must see every transition: the step invariants read prev and lastop
+ViewStep == <<st, prev, lastop, Len(hist)>>
 
 \* ---- invariants (the C08 formulas) ----
 InvAcyclic == Acyclic(st)
